@@ -184,6 +184,10 @@ func Run(sc Scenario) *Result {
 	handles := make([]*message.Handler, len(sc.Handlers))
 	stuck := func(what string) {
 		res.Stuck = append(res.Stuck, what)
+		// the scenario is lost: do not spend the full liveness bound again on every wait of the wind-down
+		if bound > 2*time.Second {
+			bound = 2 * time.Second
+		}
 	}
 
 	handlerFunc := func(h int) message.HandlerFunc {
@@ -263,6 +267,13 @@ func Run(sc Scenario) *Result {
 			return false
 		}
 	}
+	// callBounded runs an API call of the controller in its own goroutine: a call that never returns (deadlock in the
+	// router) must not take the harness with it
+	callBounded := func(what string, f func()) bool {
+		done := make(chan struct{})
+		go func() { defer close(done); f() }()
+		return waitCh(done, what+" did not return")
+	}
 	kindIs := func(kind string) func(Event) bool { return func(e Event) bool { return e.Kind == kind } }
 	doRun := func() {
 		id := int(atomic.AddInt64(&nRun, 1)) - 1
@@ -332,7 +343,7 @@ func Run(sc Scenario) *Result {
 				pub = &ScriptPub{rec: rec, h: h, Fail: fail}
 			}
 			rec.Log("ahc", itoa(h))
-			func() {
+			ok = callBounded("AddHandler", func() {
 				defer func() {
 					if r := recover(); r != nil {
 						rec.Log("ahp", itoa(h))
@@ -344,7 +355,10 @@ func Run(sc Scenario) *Result {
 				} else {
 					handles[h] = router.AddHandler("h"+itoa(h), "t"+itoa(h), sub, "o"+itoa(h), pub, handlerFunc(h))
 				}
-			}()
+			})
+			if !ok {
+				break
+			}
 			pk := "p"
 			if spec.NoPublisher {
 				pk = "n"
@@ -354,7 +368,7 @@ func Run(sc Scenario) *Result {
 			runWg.Add(1)
 			go func() { defer runWg.Done(); doRun() }()
 		case "run2":
-			doRun() // a second Run while the first is running: must return an error at once
+			ok = callBounded("second Run", doRun) // a second Run while the first is running: must return an error at once
 		case "wrun":
 			if waitCh(router.Running(), "Running() not closed") {
 				rec.Log("rng")
@@ -362,7 +376,7 @@ func Run(sc Scenario) *Result {
 				ok = false
 			}
 		case "rh":
-			doRh()
+			ok = callBounded("RunHandlers", doRh)
 		case "rhbg":
 			rhWg.Add(1)
 			go func() { defer rhWg.Done(); doRh() }()
@@ -379,15 +393,17 @@ func Run(sc Scenario) *Result {
 			h := arg(1)
 			rec.Log("stp", itoa(h))
 			r := "ok"
-			func() {
+			ok = callBounded("Stop", func() {
 				defer func() {
 					if rv := recover(); rv != nil {
 						r = "panic"
 					}
 				}()
 				handles[h].Stop()
-			}()
-			rec.Log("stpr", itoa(h), r)
+			})
+			if ok {
+				rec.Log("stpr", itoa(h), r)
+			}
 		case "wsd":
 			h := arg(1)
 			ch := handles[h].Stopped()
@@ -609,7 +625,7 @@ func Run(sc Scenario) *Result {
 	}
 	if len(res.Stuck) > 0 || res.Leftover > 0 {
 		atomic.StoreInt32(&poisoned, 1)
-	} else {
+	} else if atomic.LoadInt32(&poisoned) == 0 {
 		// the next scenario's census must not see this router's goroutines
 		d2 := time.Now().Add(5 * time.Second)
 		for {
